@@ -32,7 +32,7 @@ def gen_real_rnn(rng):
   T = rng.randint(1, 5)
   return {'test': 'real_rnn', 'seed': rng.randint(0, 10 ** 6), 'batch': B, 'T': T, 'features': rng.randint(1, 3), 'hidden': rng.randint(1, 3),
           'lens': (np.array([rng.randint(1, T) for _ in range(int(np.prod(B)))]).reshape(B).tolist() if rng.random() < 0.7 else None),
-          'kind': rng.choice(['lstm', 'lstm', 'olstm', 'gru', 'simple', 'mgu']), 'reverse': rng.random() < 0.5, 'keep_order': rng.random() < 0.5}
+          'kind': rng.choice(['lstm', 'lstm', 'olstm', 'gru', 'simple', 'simple_res', 'mgu']), 'reverse': rng.random() < 0.5, 'keep_order': rng.random() < 0.5}
 
 
 def gen_attention(rng):
@@ -138,6 +138,8 @@ def run(chk):
       if not r['dev_nnx_weights'] <= TOL:
         chk.violation('oracle', 'Linen and NNX attention weights differ', {'case': c, 'observed': r})
     else:
+      if not r['dev_linen_decode_padding'] <= TOL:
+        chk.violation('oracle', 'Linen decoding with a key-padding mask passed at every step differs from whole-sequence attention under the causal and padding masks', {'case': c, 'observed': r})
       if not r['dev_linen_decode'] <= TOL or r['cache_index'] != c['T']:
         chk.violation('oracle', 'Linen attention fed one position at a time through the decode cache differs from whole-sequence causal attention', {'case': c, 'observed': r})
       if not r['causal_inert']:
